@@ -34,4 +34,3 @@ func (x *Exec) iterHook(fr *Frame, s *ast.RangeStmt, st *State, rv Value) (func(
 	return nil, false
 }
 
-func (x *Exec) sprintfFacts(st *State, format string, args []Value, r StrV) {}
